@@ -160,10 +160,11 @@ func spinRun(work string, nf bool, nl int, query []int) (*modelRun, bool, error)
 // ---------------------------------------------------------------- real processes
 
 type launchPlan struct {
-	doneBeforePause bool // hold the launcher after cmd.Start() until Done() has been sent
-	doneAtPause2    bool // hold the launcher right before it starts waiting until Done() has been sent
-	holdDaemon      bool // hold the daemon before Done() until the launcher is about to wait
-	fastTimers      bool // every timer the daemon package arms fires (nearly) at once: a slow daemon seen from the launcher's clock
+	doneBeforePause  bool // hold the launcher after cmd.Start() until Done() has been sent
+	doneAtPause2     bool // hold the launcher right before it starts waiting until Done() has been sent
+	holdDaemon       bool // hold the daemon before Done() until the launcher is about to wait
+	callerIgnoresInt bool // the caller has SIGINT ignored when it calls Launch
+	fastTimers       bool // every timer the daemon package arms fires (nearly) at once: a slow daemon seen from the launcher's clock
 }
 
 // class returns the model's class of a forced plan (-1: free race)
@@ -261,6 +262,9 @@ func replay(work string, idx int, pl launchPlan, predicted map[bool]bool) (viol 
 	if pl.fastTimers {
 		cmd.Env = append(cmd.Env, "GLB_VERIF_TIMER_SCALE=1000000")
 	}
+	if pl.callerIgnoresInt {
+		cmd.Env = append(cmd.Env, "GLB_VERIF_CALLER_IGNORES_SIGINT=1")
+	}
 	cmd.Stdout, cmd.Stderr = nil, nil
 	if err := cmd.Start(); err != nil {
 		return "", "cannot start the caller: " + err.Error(), obs
@@ -341,6 +345,11 @@ func replay(work string, idx int, pl launchPlan, predicted map[bool]bool) (viol 
 		os.WriteFile(filepath.Join(dir, "launch-after-start.release"), nil, 0o644)
 	}
 	if !waitFile(result) {
+		if fileExists(filepath.Join(dir, "daemon.done-returned")) && alive(daemonPid) && !zombie(daemonPid) && alive(launcherPid) && !zombie(launcherPid) {
+			// not a matter of speed: Done() has long returned in the daemon, the launcher is still
+			// there and Launch is still waiting for it
+			return fmt.Sprintf("the daemon called Done() %v ago and keeps running, but the launcher (pid %d) is still there and Launch has not returned", stepTimeout, launcherPid), "", obs
+		}
 		return "", "Launch did not return within the step timeout", obs
 	}
 	var r procResult
@@ -640,6 +649,8 @@ func main() {
 		{"1 launch: daemon held, launcher held; Done() released first", []launchPlan{{doneBeforePause: true, holdDaemon: true}}},
 		{"1 launch: Done() lands while the launcher is held right before its wait", []launchPlan{{doneAtPause2: true}}},
 		{"1 launch: daemon held before Done() while every timer of the launcher fires at once (a daemon that is slow on the launcher's clock)", []launchPlan{{holdDaemon: true, fastTimers: true}}},
+		{"1 launch: the caller has SIGINT ignored; daemon held before Done() until the launcher is about to wait", []launchPlan{{holdDaemon: true, callerIgnoresInt: true}}},
+		{"1 launch: the caller has SIGINT ignored; Done() lands while the launcher is held after cmd.Start()", []launchPlan{{doneBeforePause: true, callerIgnoresInt: true}}},
 		{"1 launch: nobody held (free race)", []launchPlan{{}}},
 		{"2 launches: both Done() before the pause point", []launchPlan{{doneBeforePause: true}, {doneBeforePause: true}}},
 		{"2 launches: one before, one after", []launchPlan{{doneBeforePause: true}, {holdDaemon: true}}},
